@@ -3,7 +3,7 @@
 
 use idlc_mir::{Const, StructInner};
 
-use crate::types::{change_const_primitive, change_primitive};
+use crate::types::{change_primitive, const_expression};
 
 pub fn emit_include(include: &std::path::Path) -> String {
     let inc_name = include.display().to_string().replace(".idl", "");
@@ -35,8 +35,7 @@ pub fn emit_struct(r#struct: &StructInner) -> String {
 
 pub fn emit_const(r#const: &Const) -> String {
     let ident = r#const.ident.to_string();
-    let ty = change_const_primitive(r#const.r#type);
-    let value = &r#const.value;
+    let value = const_expression(r#const.r#type, &r#const.value);
 
-    format!("#define {ident} {ty}({value})\n\n")
+    format!("#define {ident} {value}\n\n")
 }
